@@ -84,6 +84,13 @@ class Diagonalization(Function):
 
         # finally sum the two
         dL_dM = term1 + term2
-        output = tuple([None] * 6 + [dL_dM])
+
+        # dL/dM is the gradient w.r.t. the dense matrix: the operator's own derivative maps it onto its arguments
+        if hasattr(ctx, "_linear_op"):
+            linear_op = ctx._linear_op
+        else:
+            linear_op = ctx.representation_tree(*ctx.saved_tensors[:-2])
+        eye = torch.eye(dL_dM.size(-1), dtype=dL_dM.dtype, device=dL_dM.device).expand_as(dL_dM)
+        output = tuple([None] * 6 + list(linear_op._bilinear_derivative(dL_dM, eye)))
 
         return output
